@@ -316,6 +316,8 @@ func (x *Exec) assumeLoaded(st *State, v *Term, T types.Type) {
 	case *types.Pointer, *types.Map:
 		// pointers found in the heap refer to existing objects
 		x.addFactRaw(x.tt.Lt(x.tt.UF("birth$", "Int", v), st.clk))
+	case *types.Slice:
+		x.addFactRaw(x.tt.Lt(x.tt.UF("birth$", "Int", x.sArr(v)), st.clk))
 	}
 }
 
